@@ -27,6 +27,9 @@ type ModelCase struct {
 	Mode   app.Mode `json:"mode"`
 	// ClearTerminateAt: request indices before which external code clears TERMINATE (C06/C20)
 	ClearTerminateAt []int `json:"clear_terminate_at,omitempty"`
+	// BlockAt: request indices before which code outside the VM sets TERMINATE directly on
+	// the (halted) session's state — an out-of-band block (C06 blocked-request check only)
+	BlockAt []int `json:"block_at,omitempty"`
 	// UseDb: the application is served by resource.DbResource over a memdb
 	UseDb bool `json:"use_db,omitempty"`
 }
